@@ -25,7 +25,7 @@ VERIF = os.path.dirname(os.path.dirname(os.path.abspath(__file__)))
 
 class Family:
     def __init__(self, name, body, selectors, params, conditions, pre=None, timeout=60.0, path_timeout=30.0,
-                 desc='', nontrivial=None):
+                 desc='', nontrivial=None, pinned=None):
         """
         body:       module-level function; called as body(*selector_values, *param_values)
         selectors:  names of the structural (concrete) leading arguments
@@ -36,6 +36,7 @@ class Family:
         self.name, self.body, self.selectors, self.params = name, body, list(selectors), list(params)
         self.conditions, self.pre, self.timeout, self.path_timeout, self.desc = conditions, pre, timeout, path_timeout, desc
         self.nontrivial = nontrivial
+        self.pinned = pinned      # optional callable(selector_tuple) -> list of concrete argument vectors for the unshimmed validation run
 
 
 COND_TEMPLATE = '''\
